@@ -111,6 +111,42 @@ def commute_check(g, pt, doc):
     return []
 
 
+def derive_check(g, pt, doc):
+    """The modifier methods return NEW paths: the path they are called on selects afterwards what it selected before (and what
+    a freshly built one selects), and each derived path is the freshly built path with just that modifier."""
+    def out(f):
+        try:
+            return ("ok", f())
+        except Exception as e:
+            return ("exc", type(e).__name__)
+    base_t = PathT(pt.parts, [])
+    try:
+        base = base_t.build()
+    except Exception:
+        return []
+    before = out(lambda: base.get_data(copy_value(doc), return_paths=True))
+    derived = []
+    for name in g.r.sample([g.r.choice(DT_MODS), g.r.choice(MT_MODS), g.r.choice(DT_MODS)], g.r.choice([1, 2, 3])):
+        try:
+            derived.append((name, getattr(base, name)()))
+        except Exception:
+            pass
+    after = out(lambda: base.get_data(copy_value(doc), return_paths=True))
+    fresh = out(lambda: base_t.build().get_data(copy_value(doc), return_paths=True))
+    res = []
+    if after != before or after != fresh:
+        res.append({"kind": "direct", "what": "a path selects differently after paths with modifiers were derived from it (" +
+                    ", ".join(n for n, _ in derived) + ")", "path": base_t.descr()[:300], "doc": jval(doc), "before": repr(before)[:200], "after": repr(after)[:200]})
+    for name, dp in derived:
+        a = out(lambda: dp.get_data(copy_value(doc), return_paths=True))
+        b = out(lambda: PathT(pt.parts, [name]).build().get_data(copy_value(doc), return_paths=True))
+        if a != b:
+            res.append({"kind": "direct", "what": f"the path derived with .{name}() (among {[n for n, _ in derived]}) differs from the path built with that modifier",
+                        "path": base_t.descr()[:300], "doc": jval(doc), "derived": repr(a)[:200], "built": repr(b)[:200]})
+            break
+    return res
+
+
 def run(tier, seed, model_ok, spec_ok, replay=None):
     g = Gen(seed + 1000)
     pg = PathGen(CondGen(g))
@@ -146,6 +182,9 @@ def run(tier, seed, model_ok, spec_ok, replay=None):
             nd += 1
         if g.r.random() < 0.3:
             dviol += ctor_check(g, pt, doc)
+            nd += 1
+        if g.r.random() < 0.3:
+            dviol += derive_check(g, pt, doc)
             nd += 1
     k_bad, o_bad, nk, no, err = run_passes("c04", IMPORTS, cases, model_ok, spec_ok)
     res = c03.summarise(cases, k_bad, o_bad, nk, no, err,
